@@ -196,7 +196,82 @@ func tailOf(b []byte, n int) []byte {
 	return b
 }
 
+// c06DirectShapes: every shape of value that Go keeps directly in an interface word - not only
+// structs of one pointer, also arrays of one such element, nested. Most of them are types plenc
+// turns away today; whichever it accepts must encode alike by value and through a pointer
+// (round 12: k06).
+func c06DirectShapes(c *core.Ctx, idx int) {
+	rec := c.Rec
+	r := c.Rand(idx)
+	cfg := instCfgs()[idx%4]
+	p := instNew(cfg)
+	leaf := structOf(sf("A", tInt, `plenc:"1"`), sf("B", tString, `plenc:"2"`))
+	pl := reflect.PointerTo(leaf)
+	arr := func(t reflect.Type) reflect.Type { return reflect.ArrayOf(1, t) }
+	shapes := []reflect.Type{arr(pl), arr(arr(pl)), arr(reflect.PointerTo(tInt)), arr(reflect.MapOf(tString, tInt)), arr(reflect.PointerTo(arr(pl))),
+		structOf(sf("X", arr(pl), `plenc:"1"`)), arr(structOf(sf("X", pl, `plenc:"1"`))), reflect.ArrayOf(2, pl), reflect.ArrayOf(0, pl), arr(tInt), reflect.ArrayOf(3, tString),
+		structOf(sf("X", reflect.MapOf(tString, leaf), `plenc:"1"`)), structOf(sf("X", structOf(sf("Y", pl, `plenc:"1"`)), `plenc:"1"`))}
+	for _, t := range shapes {
+		v := reflect.New(t)
+		fillPresent(v.Elem(), r)
+		if r.IntN(3) == 0 {
+			// the pointee's first word zero: a codec that takes the pointer for the address of the value reads a nil there
+			zeroFirstWords(v.Elem())
+		}
+		byPtr, err, pn := marshal(p, nil, v.Interface())
+		rec.Eval(1)
+		if pn != "" {
+			rec.Violation("marshal-panic", fmt.Sprintf("[%s] Marshal through a pointer panicked\n  type %s\n%s", cfgName(cfg), typeString(t), pn), nil)
+			return
+		}
+		if err != nil {
+			rec.Count("direct_shapes_turned_away", 1)
+			continue
+		}
+		rec.Count("direct_shapes_accepted", 1)
+		byVal, err, pn := marshal(p, nil, v.Elem().Interface())
+		if err != nil || pn != "" || !bytes.Equal(byVal, byPtr) {
+			rec.Violation("by-value", fmt.Sprintf("[%s] Marshal by value differs from Marshal through a pointer (%v %s)\n  type %s\n  value %s\n  by value   %s\n  by pointer %s", cfgName(cfg), err, trunc1(pn), typeString(t), model.Show(v.Elem()), hexHead(byVal), hexHead(byPtr)), nil)
+			return
+		}
+		pre := []byte{1, 2, 3}
+		again, err, pn := marshal(p, pre, v.Elem().Interface())
+		if err != nil || pn != "" || !bytes.Equal(again, append([]byte{1, 2, 3}, byPtr...)) {
+			rec.Violation("append", fmt.Sprintf("[%s] Marshal by value onto a prefix is not the prefix followed by the encoding (%v %s)\n  type %s\n  got %s", cfgName(cfg), err, trunc1(pn), typeString(t), hexHead(again)), nil)
+			return
+		}
+	}
+	rec.NonTrivial(core.Hash64("direct-shapes", fmt.Sprint(idx)))
+}
+
+// zeroFirstWords sets the first field of every struct reached through v to its zero value
+func zeroFirstWords(v reflect.Value) {
+	switch v.Kind() {
+	case reflect.Ptr:
+		if !v.IsNil() {
+			zeroFirstWords(v.Elem())
+		}
+	case reflect.Array, reflect.Slice:
+		for i := 0; i < v.Len(); i++ {
+			zeroFirstWords(v.Index(i))
+		}
+	case reflect.Struct:
+		if v.NumField() > 0 && v.Field(0).CanSet() {
+			if k := v.Field(0).Kind(); k != reflect.Ptr && k != reflect.Map && k != reflect.Array && k != reflect.Struct {
+				v.Field(0).SetZero()
+			}
+			for i := 0; i < v.NumField(); i++ {
+				zeroFirstWords(v.Field(i))
+			}
+		}
+	}
+}
+
 func c06Case(c *core.Ctx, idx int) {
+	if idx%53 == 9 {
+		c06DirectShapes(c, idx)
+		return
+	}
 	if idx%101 == 5 {
 		c06Deep(c, idx)
 		return
@@ -405,7 +480,7 @@ func init() {
 	core.Register(&core.Prop{
 		ID:        "C06",
 		Technique: "append-contract monitor: real Marshal called with prefixes of several lengths/capacities, re-used buffers, by value and by pointer, repeatedly; results compared with Marshal(nil,v)",
-		Rule: "generated types (every fifth wrapped into a struct that Go stores directly in the interface word: single pointer / map / nested single-pointer field) x boundary-biased values incl. the zero value and values that encode to nothing; the values of a case are encoded once more, last to first, at its end; every 257th case marshals a value with a million-element first field by value and through a dropped pointer while the collector runs and four goroutines allocate values of the same shape; " +
+		Rule: "every 53rd case: every shape of value Go keeps directly in an interface word (arrays of one pointer-shaped element, nested, in and around structs): whichever plenc accepts encodes alike by value, through a pointer and onto a prefix. generated types (every fifth wrapped into a struct that Go stores directly in the interface word: single pointer / map / nested single-pointer field) x boundary-biased values incl. the zero value and values that encode to nothing; the values of a case are encoded once more, last to first, at its end; every 257th case marshals a value with a million-element first field by value and through a dropped pointer while the collector runs and four goroutines allocate values of the same shape; " +
 			"per value: 2 repetitions, by-value call, 12 (prefix length, spare capacity) shapes with a snapshot of the destination, one call into a buffer re-used along the case, in-place mutation of the same variable followed by calls into non-nil buffers; every third case ends with 4 goroutines marshalling the case's values at once by value and by pointer. Bytes compared exactly, or through the model's canonical parse when the value holds a multi-entry map. distinct = (type, configuration, value-shape) hashes with non-zero content",
 		Assume: []string{"model.Canon for comparing encodings that differ only in map entry order"},
 		Plan: func(tier string) []core.Lane {
